@@ -7,6 +7,7 @@ import (
 	"io/ioutil"
 	"math"
 	"math/rand"
+	"net"
 	"net/http"
 	"net/http/httptest"
 	"os"
@@ -14,6 +15,7 @@ import (
 	"runtime"
 	"runtime/debug"
 	"strings"
+	"sync"
 	"syscall"
 	"time"
 
@@ -44,7 +46,7 @@ func (c15) Meta() fw.Meta {
 			"allocation is measured as the TotalAlloc delta around a call made from the only running harness goroutine",
 			"a >30 s call on a <= 64 KiB input counts as a hang",
 		},
-		Obligations: []string{"decoder_calls", "decoder_errors", "decoder_accepts", "extreme_count_inputs", "open_calls", "open_rejected", "open_accepted_damaged", "handle_ops_on_damaged", "handle_op_errors", "remote_client_calls", "remote_client_errors", "alloc_checked", "remote_list_client_calls", "second_open_after_rejection"},
+		Obligations: []string{"decoder_calls", "decoder_errors", "decoder_accepts", "extreme_count_inputs", "open_calls", "open_rejected", "open_accepted_damaged", "handle_ops_on_damaged", "handle_op_errors", "remote_client_calls", "remote_client_errors", "alloc_checked", "remote_list_client_calls", "second_open_after_rejection", "calls_to_a_peer_announcing_a_huge_body", "sums_over_mostly_corrupt_items", "remote_client_calls_naming_an_archive"},
 		Workers:     8,
 	}
 }
@@ -281,6 +283,20 @@ func (c15) Run(c *fw.Ctx) {
 	}))
 	defer srv.Close()
 
+	// a peer that announces a huge body, sends a few bytes and closes (raw socket: net/http would not let a handler lie)
+	if c.Index%4 == 0 {
+		c15LyingPeer(c)
+		if c.Violated() {
+			return
+		}
+	}
+	// sums over an item most of whose files are corrupt: an error, not a hang
+	if c.Index%4 == 1 {
+		c15CorruptItem(c)
+		if c.Violated() {
+			return
+		}
+	}
 	var sampleIn []c15input
 	for j := 0; j < 120 && !c.Violated(); j++ {
 		switch {
@@ -455,15 +471,21 @@ func (c15) Run(c *fw.Ctx) {
 			}
 			di := describeInput(name, how, body)
 			var err error
+			// the archive the client asks for is the client's business: the response need not have that many
+			reqArch := []int{-1, -1, 0, 1, 2, 5, -2}[r.Intn(7)]
+			which := r.Intn(2)
 			pan, stack, alloc, hung := guardedAlloc(uint64(1<<20+16*len(body)), func() {
 				if raw {
-					_, _, err = wcmd.VerifReadWhisperFileRaw(srv.URL, "a.wsp", -1)
-				} else if r.Intn(2) == 0 {
-					_, _, err = wcmd.VerifReadWhisperFile(srv.URL, "a.wsp", -1, 0, 1700000000, 1700000000)
+					_, _, err = wcmd.VerifReadWhisperFileRaw(srv.URL, "a.wsp", reqArch)
+				} else if which == 0 {
+					_, _, err = wcmd.VerifReadWhisperFile(srv.URL, "a.wsp", reqArch, 0, 1700000000, 1700000000)
 				} else {
-					_, _, err = wcmd.VerifSumWhisperFile(srv.URL, "item", "*.wsp", -1, 0, 1700000000, 1700000000)
+					_, _, err = wcmd.VerifSumWhisperFile(srv.URL, "item", "*.wsp", reqArch, 0, 1700000000, 1700000000)
 				}
 			})
+			if reqArch != -1 {
+				c.Count("remote_client_calls_naming_an_archive", 1)
+			}
 			c.Count("remote_client_calls", 1)
 			if hung {
 				c.Violationf("hang:"+name, di, "remote client did not return within 30 s")
@@ -753,4 +775,126 @@ func clampTS(t int64) int64 {
 		return math.MaxUint32
 	}
 	return t
+}
+
+func c15LyingPeer(c *fw.Ctx) {
+	r := c.Rng
+	ln, err := net.Listen("tcp", "127.0.0.1:0")
+	if err != nil {
+		return
+	}
+	defer ln.Close()
+	var mu sync.Mutex
+	announce := "1073741824"
+	go func() {
+		for {
+			conn, err := ln.Accept()
+			if err != nil {
+				return
+			}
+			go func(conn net.Conn) {
+				defer conn.Close()
+				buf := make([]byte, 4096)
+				n := 0
+				for n < len(buf) {
+					k, err := conn.Read(buf[n:])
+					n += k
+					if err != nil || bytes.Contains(buf[:n], []byte("\r\n\r\n")) {
+						break
+					}
+				}
+				mu.Lock()
+				a := announce
+				mu.Unlock()
+				fmt.Fprintf(conn, "HTTP/1.1 200 OK\r\nContent-Type: application/octet-stream\r\nContent-Length: %s\r\n\r\n", a)
+				conn.Write(bytes.Repeat([]byte{0, 0, 0, 1}, 4))
+			}(conn)
+		}
+	}()
+	u := "http://" + ln.Addr().String()
+	for _, a := range []string{"1073741824", "4611686018427387904", "9223372036854775807", "4294967296"} {
+		mu.Lock()
+		announce = a
+		mu.Unlock()
+		for k := 0; k < 5 && !c.Violated(); k++ {
+			name := []string{"client:view", "client:view-raw", "client:sum", "client:files", "client:items"}[k]
+			var err error
+			pan, stack, alloc, hung := guardedAlloc(4<<20, func() {
+				switch k {
+				case 0:
+					_, _, err = wcmd.VerifReadWhisperFile(u, "a.wsp", -1, 0, 1700000000, 1700000000)
+				case 1:
+					_, _, err = wcmd.VerifReadWhisperFileRaw(u, "a.wsp", -1)
+				case 2:
+					_, _, err = wcmd.VerifSumWhisperFile(u, "item", "*.wsp", -1, 0, 1700000000, 1700000000)
+				case 3:
+					_, err = wcmd.VerifGlobFiles(u, "x/*.wsp")
+				default:
+					_, err = wcmd.VerifGlobItems(u, "x*")
+				}
+			})
+			c.Count("calls_to_a_peer_announcing_a_huge_body", 1)
+			det := fw.J{"client": name, "announced_content_length": a, "bytes_sent": 16}
+			if hung {
+				c.Violationf("hang:"+name, det, "%s did not return within 30 s from a peer that announced %s bytes, sent 16 and closed", name, a)
+				return
+			}
+			if pan != nil {
+				det["panic"], det["stack"] = fmt.Sprint(pan), truncStr(stack, 2500)
+				c.Violationf("panic:"+name+":"+fw.PanicSite(stack), det, "%s panicked on a peer that announced %s bytes and sent 16: %v", name, a, pan)
+				return
+			}
+			if alloc > 4<<20 {
+				det["alloc"] = alloc
+				c.Violationf("alloc:"+name, det, "%s allocated %d bytes for a 16-byte body (announced: %s)", name, alloc, a)
+				return
+			}
+			_ = err
+		}
+	}
+	_ = r
+}
+
+func c15CorruptItem(c *fw.Ctx) {
+	r := c.Rng
+	base := filepath.Join(c.TmpDir(), "corrupt-item")
+	l := genLayout(r, layoutOpts{maxPoints0: 100})
+	good := model.EncodeFile(l, nil)
+	n := 18 + r.Intn(30)
+	for i := 0; i < n; i++ {
+		p := filepath.Join(base, "it", fmt.Sprintf("f%03d.wsp", i))
+		mustMkdir(filepath.Dir(p))
+		img := good
+		if i < n-2 || r.Intn(2) == 0 {
+			switch r.Intn(3) {
+			case 0:
+				img = make([]byte, 50+r.Intn(200))
+				r.Read(img)
+			case 1:
+				img = good[:len(good)/2]
+			default:
+				img = append([]byte(nil), good...)
+				img[3] = 99
+			}
+		}
+		ioutil.WriteFile(p, img, 0644)
+	}
+	var err error
+	pan, stack, _, hung := guardedAlloc(64<<20, func() {
+		_, _, err = wcmd.VerifSumWhisperFile(base, "it", "*.wsp", -1, 0, 1700000000, 1700000000)
+	})
+	c.Count("sums_over_mostly_corrupt_items", 1)
+	det := fw.J{"files": n, "layout": l.String()}
+	if hung {
+		c.Violationf("hang:sum-over-corrupt-files", det, "sum over an item of %d files, nearly all corrupt, did not return within 30 s", n)
+		return
+	}
+	if pan != nil {
+		det["panic"], det["stack"] = fmt.Sprint(pan), truncStr(stack, 2500)
+		c.Violationf("panic:sum-over-corrupt-files:"+fw.PanicSite(stack), det, "sum over corrupt files panicked: %v", pan)
+		return
+	}
+	if err == nil {
+		c.Violationf("corrupt-files-summed", det, "sum over an item whose files are corrupt returned no error")
+	}
 }
